@@ -11,7 +11,7 @@ import (
 
 // ---- naming ----
 
-// fname is a stable qualified name: "midix.(*MIDIWriter).Note", "math.Round", "cmd.init$1".
+// fname is a stable qualified name: "midix.MIDIWriter.Note", "math.Round", "cmd.init$1".
 // funcAlias gives stable names to the anonymous cobra handlers of package cmd: cmd.init$7 -> cmd.writeCmd.RunE.
 var funcAlias = map[*ssa.Function]string{}
 
@@ -42,11 +42,12 @@ func fname(fn *ssa.Function) string {
 		}
 		return strings.LastIndex(head, ".")
 	}
+	// pointer and value receivers are named alike: changing the receiver kind of a method is not a change of behaviour
 	if strings.HasPrefix(s, "(*") {
 		if i := strings.LastIndex(s, ")."); i > 0 {
 			inner := s[2:i]
 			if j := split(inner); j >= 0 {
-				return inner[:j] + ".(*" + inner[j+1:] + ")." + s[i+2:]
+				return inner[:j] + "." + inner[j+1:] + "." + s[i+2:]
 			}
 		}
 	} else if strings.HasPrefix(s, "(") {
